@@ -31,6 +31,16 @@ def run(ctx, res):
                         if a["hasDefault"] and t0["k"] == "list" and t0["of"]["k"] == "nn" and t0["of"]["of"]["k"] == "named":
                             sites.append([f["name"], a["name"], t0["of"]["of"]["n"]])
         kinds[sc["name"]]["nnListDefaultSites"] = sites
+        # (field, argument, item type as text-free model) of every argument whose type is a list: a variable of the ITEM type is not usable there
+        lsites = []
+        for d in sc["model"]["defs"]:
+            if d["k"] in ("object", "interface"):
+                for f in d["fields"]:
+                    for a in f["args"]:
+                        t0 = a["type"]["of"] if a["type"]["k"] == "nn" else a["type"]
+                        if t0["k"] == "list":
+                            lsites.append([f["name"], a["name"], t0["of"]])
+        kinds[sc["name"]]["listArgSites"] = lsites
         # (field name, interface) pairs: the field's type is an interface J, and I is an interface implementing J that no object implements
         dsm = sc["model"]["defs"]
         ifaces = {d["name"]: d for d in dsm if d["k"] == "interface"}
